@@ -24,7 +24,7 @@ use std::fmt::Debug;
 use std::hash::Hash;
 use std::sync::{Arc, Mutex};
 
-const RULE: &str = "one case = one (width, slide, first-gaps prefix) block whose remaining gaps are enumerated exhaustively (phases exh_full: every gap 0..=width+2; exh_reduced: longer streams over the gap set {0,1,slide,slide+1,width,width+2}), or one seeded long stream (phase long: 200-3000 items, width/slide up to 50, gap profiles with duplicates / exact-slide steps / gaps beyond the width, first timestamp up to 2^52, unique or repeated item values, deterministic and probabilistic arrivals), or one stream placed beyond 2^53 (phase big_ts). Every stream is driven through each report-strategy list ([OnWindowClose], [OnWindowClose,NonEmptyContent], [NonEmptyContent,OnWindowClose]) and through the consumers (callback, polled channel, WindowRunner push+drain with both consumers, consumer thread). Non-trivial = a (width, slide, stream, strategies) run in which at least one non-empty window content was reported and compared with the oracle; distinct by hash of (width, slide, timestamps, item values, strategies).";
+const RULE: &str = "one case = one (width, slide, first-gaps prefix) block whose remaining gaps are enumerated exhaustively (phases exh_full: every gap 0..=width+2; exh_reduced: longer streams over the gap set {0,1,slide,slide+1,width,width+2}), or one seeded long stream (phase long: 200-3000 items, width/slide up to 50, gap profiles with duplicates / exact-slide steps / gaps beyond the width, first timestamp up to 2^52, unique or repeated item values, deterministic and probabilistic arrivals), or one stream placed beyond 2^53, up to and across 2^63 (phase big_ts). Every stream is driven through each report-strategy list ([OnWindowClose], [OnWindowClose,NonEmptyContent], [NonEmptyContent,OnWindowClose]) and through the consumers (callback, polled channel, WindowRunner push+drain with both consumers, consumer thread). Non-trivial = a (width, slide, stream, strategies) run in which at least one non-empty window content was reported and compared with the oracle; distinct by hash of (width, slide, timestamps, item values, strategies).";
 
 // ---------------------------------------------------------------------------------------
 // model side
@@ -869,15 +869,19 @@ fn big_ts_phase(ctx: &mut Ctx) {
         // magnitude 2^e, slide at least 4 ulps of that magnitude so that `o_i += slide` in
         // scope() always makes progress (smaller slides make scope() spin forever; that
         // cannot be observed without a wall-clock verdict and is therefore not driven)
-        let e = r.range(53, 61) as u32;
+        // (the engine computes in integers since the fix of that defect, so a third of the
+        // cases use small slides again; magnitudes reach 2^63, where a signed 64-bit
+        // computation would wrap, and a quarter of the streams straddle 2^63 itself)
+        let e = r.range(53, 63) as u32;
         let ulp = 1usize << (e - 52);
-        let s = ulp * 4 + r.range(0, 3 * ulp) + r.below(2);
+        let s = if r.chance(1, 3) { r.range(1, 50) } else { ulp * 4 + r.range(0, 3 * ulp) + r.below(2) };
         let w = match r.below(3) {
             0 => s,
             1 => s * r.range(1, 3) + r.range(0, s - 1),
             _ => r.range(1, s),
         };
-        let base = (1usize << e) + r.range(0, 1 << 20) * s;
+        let straddle = r.chance(1, 4);
+        let base = if straddle { (1usize << 63) - r.range(0, 4 * s) } else { (1usize << e) + r.range(0, 1 << 20) * s.min(1 << 14) };
         let n = r.range(2, 10);
         let mut rel: Vec<usize> = vec![];
         let mut t = r.range(0, s);
@@ -891,7 +895,12 @@ fn big_ts_phase(ctx: &mut Ctx) {
         let lo: Vec<MEv> = rel.iter().enumerate().map(|(i, x)| MEv { id: i as u64, ts: 7 * s + x, prob: false }).collect();
         let strat = r.below(3);
         let mode = if r.coin() { Mode::Callback } else { Mode::Runner };
-        ctx.count(&format!("big_ts.magnitude_2^{}", e), 1);
+        if straddle {
+            ctx.count("big_ts.stream_straddles_2^63", 1);
+        } else {
+            ctx.count(&format!("big_ts.magnitude_2^{}", e), 1);
+        }
+        ctx.count(if s <= 50 { "big_ts.slide_1_to_50" } else { "big_ts.slide_of_at_least_4_ulps_of_f64" }, 1);
         // control: below 2^53 the very same stream (same alignment) must satisfy the property;
         // if it does not, that is an ordinary finding and is reported as such
         let (viol_lo, _) = run_one(ctx, w, s, strat, mode, &lo, false, stream_hash(w, s, &lo), true, mk_u32, id_u32);
@@ -943,7 +952,7 @@ fn main() {
         "the completeness clause is evaluated after every arrival of every stream prefix whose consecutive timestamps are all at most one slide apart, with the reports seen so far",
         "an empty report matches any empty aligned interval at or before the trigger (including the one closing at 0)",
         "flush() (union of all open windows at end of stream) is not a timestamp-triggered report and is not driven",
-        "timestamps >= 2^53 (phase big_ts) are driven only with slides of at least 4 ulps of the f64 magnitude; smaller slides make scope() loop forever, which no logical-time oracle can observe (reproduce by hand: KV_C09_PROBE_SPIN=54 timeout 10 harness/target/debug/c09 -> exit 124)",
+        "timestamps in phase big_ts lie between 2^53 and 2^63 + 2^35 (a quarter of the streams straddle 2^63); two thirds of the slides are at least 4 ulps of the f64 magnitude, one third lies in 1..=50 (those made the original f64 scope() loop forever, which no logical-time oracle can observe; driven since the engine computes in integers)",
         "in phase big_ts every stream is run twice, at >= 2^53 and shifted down by a multiple of the slide (same alignment); a failure of the high copy alone gets the single signature wrong_reports_only_when_timestamps_reach_2^53, a failure of the control copy is reported under its ordinary signature",
         "a report equal to an older closed interval (not the newest one) satisfies the property as stated and is only counted (reports_equal_to_an_older_interval_only)",
         "trusted base: std mpsc/thread, the monitor's interval scan",
